@@ -179,6 +179,31 @@ func c20Lifecycle(c *vk.Ctx) int {
 			n++
 			c.Eval(fmt.Sprintf("cycle|%v|%d", disk, i))
 		}
+		// a Provision that fails half way (the configured CRL is unusable) followed by the Cleanup Caddy performs must release
+		// everything as well: the next Provision on the same work_dir has to succeed
+		for i := 0; i < 3; i++ {
+			org.SetBody("/l.crl", []byte("<html>502 bad gateway</html>"))
+			if err := w.Provision(); err == nil {
+				c.Drift("lifecycle-provision-did-not-fail")
+				w.Cleanup()
+			}
+			if crl.VerifWorkDirRegistered(w.WorkDir) {
+				c.Violation("work-dir-still-registered-after-failed-provision", "Provision failed, Cleanup ran, but the work_dir is still registered as in use", rep)
+				break
+			}
+			org.SetBody("/l.crl", ca.SimpleCRL(int64(i+2), 5))
+			if err := w.Provision(); err != nil {
+				c.Violation(fmt.Sprintf("%s:provision-fails-after-failed-provision-and-cleanup", backendName(disk)),
+					fmt.Sprintf("after a failed Provision and the Cleanup that follows it, a new Provision on the same work_dir fails: %v", err), rep)
+				break
+			}
+			if r := w.Handshake(chain); r.Verdict != "revoked" {
+				c.Drift("lifecycle-verdict")
+			}
+			w.Cleanup()
+			n++
+			c.Eval(fmt.Sprintf("failcycle|%v|%d", disk, i))
+		}
 		time.Sleep(1300 * time.Millisecond) // goleveldb's pool-drain goroutine lingers for up to one second after Close
 		runtime.GC()
 		g1 := runtime.NumGoroutine()
